@@ -526,9 +526,12 @@ SignalHandler::~SignalHandler() {
 }
 
 void SignalHandler::SetHandler(InterruptHandler handler, void *data) {
-  handler_ = handler;
-  MP_VERIF_SIGPOINT("sethandler.after_store1");
+  // Publish in an order that never pairs a callback with another
+  // registration's data if a signal arrives between the stores.
+  handler_ = 0;
   data_ = data;
+  MP_VERIF_SIGPOINT("sethandler.after_store1");
+  handler_ = handler;
   MP_VERIF_SIGPOINT("sethandler.after_store2");
 }
 
